@@ -73,7 +73,13 @@ class Checker:
             if len(self.cache) > 200:
                 self.cache.clear()
                 self.seqs.clear()
-            self.cache[k] = self.Dec(preferred_units={getattr(self.PQ, q): u for q, u in prefs.items()})
+            mine = {getattr(self.PQ, q): u for q, u in prefs.items()}
+            self.cache[k] = self.Dec(preferred_units=mine)
+            # the dict is the caller's: it is re-used for something else afterwards
+            for q in list(mine):
+                mine[q] = "k" if mine[q].lower() != "k" else "rankine"
+            mine[self.PQ.TEMPERATURE] = "f" if prefs.get("TEMPERATURE", "").lower() != "f" else "c"
+            mine.pop(self.PQ.ANGLE, None)
         return self.cache[k]
 
     def _deliver(self, dec, d, payload, nbytes, via, seq):
